@@ -13,7 +13,8 @@ import (
 type dupCase struct {
 	Base   *Scenario `json:"base"` // chain without the duplicated entry
 	Entry  Entry     `json:"entry"`
-	Places [][2]int  `json:"places"` // (height, position in the TX list) of each copy, ascending
+	Places [][2]int  `json:"places"`         // (height, position in the TX list) of each copy, ascending
+	Once   *Scenario `json:"once,omitempty"` // second oracle (executed exactly once): the whole case is this chain
 }
 
 // withCopies returns the base chain with the entry inserted at the given places.
@@ -278,12 +279,44 @@ func TestC06(t *testing.T) {
 	defer st.Flush()
 	var rc dupCase
 	if loadReplay(t, &rc) {
+		if rc.Once != nil {
+			if msg, _ := checkOnce(rc.Once); msg != "" {
+				fail(st, t, msg, &rc)
+			}
+			return
+		}
 		if msg, _ := checkDup(&rc); msg != "" {
 			fail(st, t, msg, &rc)
 		}
 		return
 	}
 	RunProbes(st, "C06")
+	t.Run("once", func(t *testing.T) {
+		rapid.Check(t, func(rt *rapid.T) {
+			sc, fam := genOnceScenario(rt, st)
+			msg, info := checkOnce(sc)
+			nt := ""
+			if info.Outcomes > 0 {
+				nt = fmt.Sprint("once", sc.Chain.Start, len(sc.Chain.Blocks), info)
+			}
+			labels := []string{"once:" + fam}
+			if info.PegRequests > 0 {
+				labels = append(labels, "once:peg-requests-paid")
+			}
+			if info.GapBlocks > 0 && info.Outcomes > 0 {
+				labels = append(labels, "once:window-over-unrated-heights")
+			}
+			st.Case(nt, labels...)
+			st.Add("held_outcomes_written", int64(info.Outcomes))
+			st.Add("peg_requests_paid", int64(info.PegRequests))
+			if st.WantSample() && nt != "" && info.PegRequests > 0 {
+				st.Sample(map[string]interface{}{"kind": "executed-exactly-once", "info": info, "chain": sc.Summary()})
+			}
+			if msg != "" {
+				fail(st, rt, msg, &dupCase{Once: sc})
+			}
+		})
+	})
 	rapid.Check(t, func(rt *rapid.T) {
 		if Open("C08/dup-history") {
 			st.Exclude("C08/dup-history")
